@@ -519,6 +519,13 @@ def strict_ir_type(term, env=None):
     if k == 'Let':
         a = ty(cs[0])
         return None if a is None else strict_ir_type(cs[1], {**env, h[1]: a})
+    if k == 'NA':
+        return h[1]
+    if k == 'IsNA':
+        return 'bool' if ty(cs[0]) is not None else None
+    if k == 'AggSum':                     # AggOp Sum: the result has the type of the summed argument (a numeric, not bool)
+        a = ty(cs[0])
+        return a if a in NUM and a != 'bool' else None
     if k == 'Coalesce':
         ts = [ty(c) for c in cs]
         return ts[0] if ts and None not in ts and all(t == ts[0] for t in ts) else None
